@@ -356,6 +356,26 @@ func (p *pcWorld) features(v *pcVec, target any) string {
 	return strings.Join(fs, " ")
 }
 
+// maxBits: bit length of the largest *big.Int argument (array elements included)
+func maxBits(v *pcVec) int {
+	mb := 0
+	for _, a := range v.args {
+		switch x := a.(type) {
+		case *big.Int:
+			if x.BitLen() > mb {
+				mb = x.BitLen()
+			}
+		case []*big.Int:
+			for _, y := range x {
+				if y.BitLen() > mb {
+					mb = y.BitLen()
+				}
+			}
+		}
+	}
+	return mb
+}
+
 func b2i(b bool) int {
 	if b {
 		return 1
@@ -586,9 +606,9 @@ func (e *env) precompileRunSweep(t *testing.T) {
 		}
 		e.out.Nontrivial("pcrun " + key + " " + depth + " " + cause + " twists=" + fmt.Sprint(nt))
 		if kind == "panic" {
-			desc := fmt.Sprintf("panic in precompile %s Run on ABI-valid, semantically hostile call data [%s] delivered as a signed MsgEthereumTx (decoder verdict %s): %s", key, class, dobs, res)
+			desc := fmt.Sprintf("panic in precompile %s Run on ABI-valid, semantically hostile call data [%s] (largest integer argument: %d bits) delivered as a signed MsgEthereumTx (decoder verdict %s): %s", key, class, maxBits(v), dobs, res)
 			replay := append([]string{"# " + desc, "# frames: " + lastStack}, p.history...)
-			e.violate("pcrun-panic "+key, desc, append(replay, replayLine))
+			e.violate("pcrun-panic "+key+" "+res, desc, append(replay, replayLine))
 			continue
 		}
 		if dobs == "err" && kind == "ok" {
@@ -611,8 +631,8 @@ func (e *env) precompileRunSweep(t *testing.T) {
 			})
 			e.out.Count("pcrun-ethcall-" + strings.SplitN(r2, ":", 2)[0])
 			if isPanic(r2) {
-				desc := fmt.Sprintf("panic in precompile %s Run on ABI-valid, semantically hostile call data [%s] through CallEVM (eth_call path): %s", key, class, r2)
-				e.violate("pcrun-panic-call "+key, desc, append(append([]string{"# " + desc}, p.history...), replayLine))
+				desc := fmt.Sprintf("panic in precompile %s Run on ABI-valid, semantically hostile call data [%s] (largest integer argument: %d bits) through CallEVM (eth_call path): %s", key, class, maxBits(v), r2)
+				e.violate("pcrun-panic-call "+key+" "+r2, desc, append(append([]string{"# " + desc}, p.history...), replayLine))
 			}
 		}
 	}
